@@ -345,7 +345,7 @@ def tabintp(r: random.Random, itype: str, ptype: str, k: int, npts: int, shape: 
 
 
 TT_VARIANTS = ["points", "lower-only", "ranges", "ranges+inv", "phys-default", "int-default",
-               "both-defaults", "dup-text", "default+inv", "ranges-gaps"]
+               "both-defaults", "dup-text", "default+inv", "ranges-gaps", "points+inv"]
 
 
 def texttable(r: random.Random, itype: str, k: int, nsc: int, variant: str) -> J:
@@ -360,6 +360,11 @@ def texttable(r: random.Random, itype: str, k: int, nsc: int, variant: str) -> J
         sc: J = {"const": {"vt": texts[i]}}
         if variant == "points" or (variant in ("phys-default", "int-default") and k % 2):
             sc["lo"], sc["hi"] = (b[i], "CLOSED"), (b[i], ["CLOSED", None][i % 2])
+        elif variant == "points+inv":
+            # single values with an explicit COMPU-INVERSE-VALUE (an injective table whose
+            # inverse values are read from the description)
+            sc["lo"], sc["hi"] = (b[i], "CLOSED"), (b[i], "CLOSED")
+            sc["inv"] = {"v": b[i]}
         elif variant == "lower-only":
             sc["lo"] = (b[i], ["CLOSED", None][(k + i) % 2])
         else:
